@@ -8,7 +8,7 @@ import time
 from datetime import timedelta
 
 from .. import alphabet as A
-from ..common import Report, deadline, Horizon, finish, merge_all, pmap
+from ..common import Report, deadline, Horizon, finish, merge_all, pmap, bind_repo
 from ..configs import ALL, BY_LABEL, make, _c
 from ..drivers import fresh, host_kw, tfc_label, raw_stream
 
@@ -67,7 +67,7 @@ def rel_stream(word, tf, var=None):
 
 
 def spaces(tier):
-    tfcs = [(None, False, None, None), ("T2", False, None, None), ("T2", True, None, None)]
+    tfcs = [(None, False, None, None), ("T2", False, None, None), ("T2", True, None, None), (None, False, None, "HA"), ("T2", True, None, "HA")]
     if tier == "quick":
         return dict(abs_sigma="UDFZ", abs_n=4, rel_sigma="udnfPM", rel_n=4, st_sigma="FZUD", st_n=3, st_r=(1, 16), tfcs=tfcs, horizon=4.0)
     return dict(abs_sigma="UDFZVJ", abs_n=5, rel_sigma="udnfPM", rel_n=6, st_sigma="FZUDJ", st_n=3, st_r=(1, 16, 40), tfcs=tfcs, horizon=10.0)
@@ -358,9 +358,90 @@ def explore(item):
     return rep
 
 
+# ------------------------------------------------------------------ readers fed by another indicator (C09 only)
+FED_SOURCES = [("SMA3", ""), ("RSI2", ""), ("ROC2", ""), ("MACD232", "MACD"), ("STOCH222", "k")]
+
+
+def fed_readers():
+    """Every config that can take its input from a named reading: classes with an `input_value` field (given on a candle
+    field in the pool) and wrappers with indicator / indicator_one arguments."""
+    bind_repo()
+    from hexital.indicators import INDICATOR_MAP
+    out = []
+    for cfg in CONFIGS:
+        if "cls" in cfg:
+            if "input_value" in getattr(INDICATOR_MAP[cfg["cls"]], "__dataclass_fields__", {}) and cfg["kw"].get("input_value", "close") in ("close", "high", "volume"):
+                out.append(cfg["label"])
+        elif "indicator" in cfg["kw"] or "indicator_one" in cfg["kw"]:
+            out.append(cfg["label"])
+    return out
+
+
+def fed_build(rcfg, scfg, sfield, tfc, candles):
+    from hexital import Hexital
+    src = make(scfg)
+    sname = src.name + ("." + sfield if sfield else "")
+    kw = dict(rcfg["kw"])
+    if "cls" in rcfg:
+        kw["input_value"] = sname
+    elif "indicator" in kw:
+        kw["indicator"] = sname
+    else:
+        kw["indicator_one"] = sname
+    rdr = make({**rcfg, "kw": kw})
+    hx = Hexital("h", candles, [src, rdr], **host_kw(tfc))
+    return hx, rdr.name
+
+
+def run_fed(rep, rlabel, slabel, sfield, tfc, fam, word, raw, horizon):
+    rcfg, scfg = BY_LABEL[rlabel], BY_LABEL[slabel]
+    kind = rcfg.get("cls", rcfg.get("analysis"))
+    for mode in ("append1", "batch"):
+        case = {"cfg": rlabel, "fed": [slabel, sfield], "tfc": tfc, "fam": fam, "word": word, "raw": raw, "mode": mode}
+        try:
+            with deadline(horizon):
+                if mode == "batch":
+                    hx, rname = fed_build(rcfg, scfg, sfield, tfc, fresh(raw))
+                    hx.calculate()
+                    rep.inc("transitions")
+                else:
+                    hx, rname = fed_build(rcfg, scfg, sfield, tfc, [])
+                    for c in fresh(raw):
+                        hx.append(c)
+                    rep.inc("transitions", len(raw))
+        except Horizon:
+            rep.inc("executions")
+            rep.violation(f"C09|horizon|{kind}<-{slabel}", dict(case, oracle="horizon"))
+            continue
+        except Exception as e:
+            rep.inc("executions")
+            rep.violation(f"C09|raised|{kind}<-{slabel}|{type(e).__name__}", dict(case, oracle="raised", error=repr(e)))
+            continue
+        rep.inc("executions")
+        from ..common import canon_candles
+        ind = hx.indicator(rname)
+        rep.add("states", canon_candles(ind.candles))
+        check_c09(rep, dict(rcfg, label=f"{rlabel}<-{slabel}"), ind, case)
+
+
+def explore_fed(item):
+    _, tier, rlabel, slabel, sfield, tfc, first = item
+    sp = spaces(tier)
+    rep = Report()
+    for (fam, word), raw in streams(sp, tfc[0], first):
+        run_fed(rep, rlabel, slabel, sfield, tfc, fam, word, raw, sp["horizon"])
+    rep.sample({"reader": rlabel, "source": slabel + ("." + sfield if sfield else ""), "tfc": tfc_label(tfc)})
+    return rep
+
+
 def replay(case):
     cfg = BY_LABEL[case["cfg"]]
     rep = Report()
+    if case.get("fed"):
+        if case["oracle"] == "horizon":
+            return True
+        run_fed(rep, case["cfg"], case["fed"][0], case["fed"][1], tuple(case["tfc"]), case["fam"], case["word"], [tuple(r) for r in case["raw"]], 30)
+        return bool(rep.viol)
     prop = "C09" if case["oracle"] in ("raised", "value", "gap") else "C10"
     if case["oracle"] == "horizon":
         return True
@@ -372,8 +453,9 @@ def main(prop, tier):
     t0 = time.time()
     sp = spaces(tier)
     items = []
+    tfcs = list(sp["tfcs"])  # lifespan hosts are C15's: where the look-back is retained readings equal the untrimmed run's
     for cfg in CONFIGS:
-        for tfc in sp["tfcs"]:
+        for tfc in tfcs:
             for f in sp["abs_sigma"]:
                 items.append((prop, tier, cfg["label"], tfc, ("abs", f)))
             for f in sp["rel_sigma"]:
@@ -385,15 +467,31 @@ def main(prop, tier):
                 items.append((prop, tier, cfg["label"], tfc, ("late", f)))
                 if tfc[0]:
                     items.append((prop, tier, cfg["label"], tfc, ("micro", f)))
-    rep = merge_all(pmap(explore, items, chunksize=4))
+    reps = pmap(explore, items, chunksize=4)
+    if prop == "C09":
+        fitems = []
+        for rl in fed_readers():
+            for sl, sf in FED_SOURCES:
+                if BY_LABEL[rl].get("cls") == BY_LABEL[sl]["cls"] and BY_LABEL[rl]["kw"].get("period") == BY_LABEL[sl]["kw"].get("period"):
+                    continue  # the reader would carry the very name of its source
+                for tfc in sp["tfcs"][:3]:
+                    for f in sp["abs_sigma"]:
+                        fitems.append((prop, tier, rl, sl, sf, tfc, ("abs", f)))
+                    for f in sp["st_sigma"]:
+                        fitems.append((prop, tier, rl, sl, sf, tfc, ("st", f)))
+        reps += pmap(explore_fed, fitems, chunksize=4)
+    rep = merge_all(reps)
     rule = ("every word of three stream families (absolute shapes sigma^n incl. flat-start prefixes; relative close steps "
             "{+1,-1,0 with wicks, 0 flat zero-volume, +2,-2 bodies}^<=n incl. all monotone runs; stutter words with runs of 16+ identical "
             "candles) x every indicator config x {base, T2, T2+fill}, run one-append-at-a-time and in batch; the invariant is evaluated on "
             "every stored reading of the final state; non-trivial = distinct (config, timeframe config, word, mode) with at least one "
-            "non-None top-level reading")
+            "non-None top-level reading; C09 additionally: every config that accepts a named input (input_value / indicator arguments) fed, "
+            "inside a Hexital, by each of the sources SMA, RSI, ROC, MACD.MACD, STOCH.k (readings that start as None, can be 0 / 100 / negative) "
+            "over the absolute and stutter families, appended one by one and in batch")
     bounds = {k: v for k, v in sp.items() if k != "tfcs"}
-    bounds["tfcs"] = [tfc_label(t) for t in sp["tfcs"]]
+    bounds["tfcs"] = [tfc_label(t) for t in tfcs]
     bounds["configs"] = len(CONFIGS)
+    bounds["fed_sources"] = FED_SOURCES
     bounds["variant"] = A.variant()
     return finish(prop, tier, rep, t0, rule=rule, bounds=bounds, replay_confirm=replay,
                   assumptions=["prices on the stated grids (finite, positive, low<=open,close<=high)", "periods 2-6"])
